@@ -36,6 +36,7 @@ structure RCfg where
   agg : Bool                 -- config.HasAggregateQC()
   scheme : Scheme
   leaders : LeaderKind := .roundRobin
+  cmdClient : Nat := 9        -- client id of the commands pre-loaded into this replica's command cache
 deriving Repr
 
 def RCfg.leader (c : RCfg) (view : Nat) : Nat :=
@@ -457,7 +458,7 @@ def createAndPropose (k : Keys) (c : RCfg) (si : SyncInfo) : M Unit := do
   if !(← markProposed (s.chain.fuel + 1) qcBlock) then return
   modify fun s => { s with lastProposed := view }
   let s ← get
-  let cmd := s!"9/{s.nextCmd}/c{s.nextCmd}"
+  let cmd := s!"{c.cmdClient}/{s.nextCmd}/c{s.nextCmd}"
   modify fun s => { s with nextCmd := s.nextCmd + 1 }
   match si.qc with
   | none => return
